@@ -28,8 +28,11 @@ for t in bad[:20]:
         d, rel = repo + "/sdk/go/hydraidego", "." + pkg[len("github.com/hydraide/hydraide/sdk/go/hydraidego/v3"):]
     else:
         d, rel = repo, "." + pkg[len("github.com/hydraide/hydraide"):]
-    r = subprocess.run(["go", "test", "-vet=off", "-count=1", "-run", "^%s$" % top, rel], cwd=d, stdout=subprocess.PIPE,
-                       stderr=subprocess.STDOUT, text=True, env=dict(__import__("os").environ, GOPROXY="off", GOFLAGS="-mod=mod"))
+    for attempt in range(3):
+        r = subprocess.run(["go", "test", "-vet=off", "-count=1", "-run", "^%s$" % top, rel], cwd=d, stdout=subprocess.PIPE,
+                           stderr=subprocess.STDOUT, text=True, env=dict(__import__("os").environ, GOPROXY="off", GOFLAGS="-mod=mod"))
+        if r.returncode == 0:
+            break
     if r.returncode != 0:
         still.append(t)
     else:
